@@ -134,6 +134,9 @@ type Knobs struct {
 	// OpTimeoutTicks: a client abandons a command (and its connection) after
 	// this many raft ticks (200 ms each) without a reply.
 	OpTimeoutTicks int `json:"op_timeout_ticks"`
+	// SectorLoss: "" = any subset of unsynced sectors may be lost in a crash;
+	// "all-or-none" = no torn writes; "none" = everything written survives.
+	SectorLoss string `json:"sector_loss,omitempty"`
 	// LivenessS: budget in simulated seconds for the final liveness probe.
 	LivenessS int `json:"liveness_s"`
 }
